@@ -16,6 +16,9 @@ CLAIMED = {
     'C03': ('CBMC/DFCC function + loop contracts on code extracted from /repo each run',
             'proof of the bundle representation invariant that every reported result of RQB/FPBA rests on: 0 < size < capacity after the constructor path, append and moveto; every index written into the bundle buffers < capacity; delete_largest reads the multipliers inside [0,size) and a full bundle loses at least `count` entries; the eps-optimality certificate itself (convex analysis on values) and the ellipsoid clauses are not decided',
             'cardinality lemma for std::nth_element + nano::remove_if assumed (stated in specs/C03/bundle.h); matrix contents, smeared_e/s and the QP solve erased', '7/C03'),
+    'C04': ('CBMC/DFCC function + loop contracts over ghost value identities for the Eigen algebra, plus SMT VCs over the reals for make_smax, on code extracted from /repo each run',
+            'proof of the decision protocol of the primal-dual interior-point solver: done() sets converged iff the program is feasible at the returned x and each of eta, |rdual|, |rprim| is below epsilon (NaN never converges), else unbounded/unfeasible; an infeasible start is rejected without iterating; every exit sets a status and converged/unbounded/unfeasible only through done(); x, u, v advance by one common step that passed the strict-feasibility test; solve_without_inequality status logic; make_smax in (0,1] keeps u + s du >= 0; all numeric tolerances and restatement invariance are not decided',
+            'Eigen operators as pure functions of operand identities; program_t::update/solve frames assumed; three IEEE facts; double as real in the make_smax VCs', '7/C04'),
     'C05': ('weakest-precondition VCs over the reals (z3/cvc5) for the penalty kernels + CBMC/DFCC loop contract for the AL solver protocol, both on code extracted from /repo each run',
             'proof (over R) that the per-constraint value and gradient coefficient of the linear, quadratic and augmented-Lagrangian penalty functions equal the defining formulas incl. gating and multiplier indexing; proof that the augmented-Lagrangian solver reports converged only for a valid state whose constraint violation is <= epsilon, with constraint values recomputed at the returned point',
             'double treated as real for the formulas; constraint value/gradient code, Eigen coefficient-wise semantics, inner solver and make_criterion lifting assumed', '7/C05'),
@@ -43,6 +46,9 @@ CLAIMED = {
     'C14': ('CBMC/DFCC function + loop contracts with Eigen coefficient-wise statements lifted to a scalar kernel at a ghost position, on code extracted from /repo each run; SMT lemmas over the reals',
             'proof for the scaling statistics: constructor, ::update, ::done (neutral scaling for N<=1 or disabled columns; div = 1/mul with the same denominator; multipliers >= eps), scale/upscale/make_scaling use the same (offset, factor) per mode with NaN->0 after scaling, and the affine up-scaling of (W, b); lemmas over R: upscale(scale(v)) = v and W\'x+b\' = upscale(W scale(x) + b) for all dimensions; rounding-error magnitudes not decided',
             'Eigen coefficient-wise operator semantics (engine/eigencw.py closed list), sqrt/min/max facts, one IEEE subtraction fact assumed; double treated as real in the lemmas', '7/C14'),
+    'C15': ('CBMC/DFCC function + loop contracts over a byte-stream model with an uninterpreted content hash, plus SMT lemmas over Int, on code extracted from /repo each run',
+            'proof that the tensor reader never reads at or beyond the end of the stream, accepts only after version, rank, scalar size, every dimension (non-negative, byte count not overflowing) and the content hash were checked, consumes exactly header + payload bytes (every strict prefix of an accepted stream fails), that the writer emits the same field sequence and refuses dimensions that do not fit the header; core stream readers/writers propagate failure; configurable and parameter readers throw on short or newer-version streams; bit-identical predictions of re-read models and collision-freeness of the hash are not decided',
+            'istream::read / ostream::write semantics (sticky failure, no partial success), tensor resize, std::string/vector resize assumed; content hash uninterpreted', '7/C15'),
     'C16': ('weakest-precondition VCs over mathematical integers (z3/cvc5), one contract per template recursion level, overflow as explicit obligations',
             'proof that index/index0/size/dims0 and every level of get_index/get_index0/product/get_dims0 (ranks 1..5) equal the row-major spec functions without intermediate overflow, plus bijection/monotonicity lemmas on the spec functions',
             'tensor invariant (extents >= 0, suffix products <= 2^62) is a stated precondition; std::get/std::array semantics assumed', '7/C16'),
